@@ -209,6 +209,7 @@ class Exec:
         self.ghosts = {}
         self.nfresh = 0
         self.lemmas_used = []
+        self.local_imports = {}
         self.havocked = set()
         self.havoc_map = {ast.unparse(ast.parse(k, mode="eval").body): v
                           for k, v in (getattr(self.c.cls, "havoc", None) or {}).items()}
@@ -455,7 +456,11 @@ class Exec:
     def stmt_Import(self, node, st):
         yield ("fall", st, None)
 
-    stmt_ImportFrom = stmt_Import
+    def stmt_ImportFrom(self, node, st):
+        # a function-level `from dask_array.x import f` makes f callable by simple name in this unit
+        for a in node.names:
+            self.local_imports[a.asname or a.name] = f"{node.module}.{a.name}"
+        yield ("fall", st, None)
 
     def stmt_Expr(self, node, st):
         if isinstance(node.value, ast.Constant):
@@ -1196,6 +1201,9 @@ class Exec:
                 for sub in node.values:
                     t = self.eval_bool(sub, st, static_only)
                     terms.append(t)
+                    ts = z3.simplify(t)
+                    if (isinstance(node.op, ast.And) and z3.is_false(ts)) or (isinstance(node.op, ast.Or) and z3.is_true(ts)):
+                        break
                     self.guards.append(t if isinstance(node.op, ast.And) else z3.Not(t))
                     pushed += 1
             finally:
@@ -1392,6 +1400,12 @@ class Exec:
                 v = self.eval(sub, st)
                 vals.append(v)
                 t = self.truth(v)
+                ts = z3.simplify(t)
+                # short-circuit on statically decided operands (isinstance tests under the declared types)
+                if isinstance(node.op, ast.And) and z3.is_false(ts):
+                    break
+                if isinstance(node.op, ast.Or) and z3.is_true(ts):
+                    break
                 self.guards.append(t if isinstance(node.op, ast.And) else z3.Not(t))
                 pushed += 1
         finally:
@@ -1641,6 +1655,7 @@ class Exec:
             items = []
             for x in seq:
                 s = st.copy()
+                base_len = len(s.pc)
                 self.assign(g.target, x, s, node)
                 ok = True
                 for cond in g.ifs:
@@ -1650,6 +1665,8 @@ class Exec:
                     ok = ok and static
                 if ok:
                     items.append(self.eval(node.elt, s))
+                # facts learnt while evaluating the element (callee postconditions, builtin models) stay valid
+                st.pc.extend(s.pc[base_len:])
             return TupV(items, kind)
         if g.ifs:
             raise Unsupported(f"filtered comprehension over symbolic sequence line {node.lineno}")
@@ -1699,10 +1716,13 @@ class Exec:
         """contracts for a module-level function called by simple name."""
         if "." in name:
             return None
+        ext = getattr(self.c.cls, "externals", None)
+        if ext and name in ext:
+            return None  # an assumed model declared by this contract takes precedence
         if name in self.mod.funcs:
-            cs = for_function(self.mod.relpath, name)
+            cs = [c for c in for_function(self.mod.relpath, name) if not c.bounded_only]
             return cs or None
-        origin = self.mod.imports.get(name)
+        origin = self.local_imports.get(name) or self.mod.imports.get(name)
         if origin and origin.startswith("dask_array"):
             modname, fn = origin.rsplit(".", 1)
             rel = modname.replace(".", "/") + ".py"
@@ -1710,6 +1730,7 @@ class Exec:
             if not cs and os.path.isdir(os.path.join(self.repo, modname.replace(".", "/"))):
                 # re-exported from a package __init__: search all contracts by function name
                 cs = [c for c in REGISTRY.values() if c.qualname == fn]
+            cs = [c for c in cs if not c.bounded_only]
             return cs or None
         return None
 
